@@ -195,6 +195,8 @@ def _worker(job):
             gl = Glue(ses)
             ex.hooks[FP + '.vAssertScanValue'] = gl.h_assert_scan
             ex.hooks[FP + '.vAssertShift'] = gl.h_assert_shift
+        if job.opts.get('bv_only'):
+            ex.solver.use_lia = False
         if job.opts.get('slowpath'):
             ses.use_slowpath()
         if job.opts.get('glue'):
